@@ -109,6 +109,10 @@ func (c *Collection) Update(id string, msg proto.Message, opts ...WriteOption) (
 	}
 
 	var created proto.Message // during create, this is returned by GetFn so concurrent reference checks pass
+	// createdMeanwhile: the re-validation read found the item although the first read did not (somebody
+	// created it while no lock was held); the write then only goes through if what was stored is equal to the
+	// provisional message, and it is an update of that stored item, not an add.
+	var createdMeanwhile bool
 	oldValue, newValue, err := GetAndUpdate(
 		&c.mu,
 		func() (item proto.Message, err error) {
@@ -119,6 +123,7 @@ func (c *Collection) Update(id string, msg proto.Message, opts ...WriteOption) (
 					if writeRequest.expectAbsent {
 						return nil, ExpectAbsentPreconditionFailed
 					}
+					createdMeanwhile = true
 					return val.body, nil
 				}
 				return created, nil
@@ -163,7 +168,7 @@ func (c *Collection) Update(id string, msg proto.Message, opts ...WriteOption) (
 		return nil, err
 	}
 	changeType := types.ChangeType_UPDATE
-	if oldValue == nil || created != nil {
+	if oldValue == nil || (created != nil && !createdMeanwhile) {
 		changeType = types.ChangeType_ADD
 		oldValue = nil
 	}
